@@ -286,7 +286,7 @@ func TestVerifDriver(t *testing.T) {
 	case "C16":
 		nd, nh := 800, 150
 		if vThorough() {
-			nd, nh = 20000, 3000
+			nd, nh = 6000, 1000 // (20 000 / 3 000 until the monitor got its stays-valid clause: over an hour of evaluation)
 		}
 		for i := 0; i < nd; i++ {
 			runC16Dir(em, r, i)
